@@ -7,6 +7,7 @@ package main
 
 import (
 	"fmt"
+	"strings"
 
 	"github.com/q191201771/lal/pkg/base"
 	"github.com/q191201771/lal/pkg/remux"
@@ -179,8 +180,113 @@ func checkRemuxSdp(r *vk.Run, video string, audio bool, order []string, reuse bo
 	}
 }
 
+// checkRemuxSdpNoHeader: audio codecs without a sequence header (G.711, Opus). The stream's first messages
+// are every arrangement of <= 4 items over {V (video sequence header), k (key frame), a (audio frame),
+// Mc (metadata that names the audio codec but no rate), Mr (metadata with codec and rate), M (metadata
+// without audio fields)}; whatever SDP results names the codec with its own clock rate.
+func checkRemuxSdpNoHeader(r *vk.Run, akind string, order []string) {
+	r.Eval(1)
+	desc := fmt.Sprintf("video=avc audio=%s order=%v", akind, order)
+	rp := replay{Kind: "remuxsdp", Desc: desc}
+	r.Class(fmt.Sprintf("remuxsdp-nohdr/%s/%d", akind, len(order)))
+	pps := []byte{0x68, 0xce, 0x3c, 0x80}
+	first := map[string]byte{"g711a": 0x72, "g711u": 0x82, "opus": 0xdf}[akind]
+	codecID := map[string]float64{"g711a": 7, "g711u": 8, "opus": 13}[akind]
+	rate := map[string]int{"g711a": 8000, "g711u": 8000, "opus": 48000}[akind]
+	enc := map[string]string{"g711a": "PCMA", "g711u": "PCMU", "opus": "OPUS"}[akind]
+	num := func(k string, v float64) ref.APair {
+		return ref.APair{Key: k, Val: ref.AVal{Kind: ref.ANumber, Num: v}}
+	}
+	meta := func(pairs ...ref.APair) []byte {
+		b := ref.AEncode(ref.AVal{Kind: ref.AString, Str: "onMetaData"})
+		return append(b, ref.AEncode(ref.AVal{Kind: ref.AObject, Pairs: pairs})...)
+	}
+	var msgs []remuxMsg
+	ts := uint32(0)
+	add := func(o string) {
+		switch o {
+		case "V":
+			msgs = append(msgs, remuxMsg{9, 0, refAvcSeqHeader(baseAvcSps, pps)})
+		case "k":
+			msgs = append(msgs, remuxMsg{9, ts, []byte{0x17, 1, 0, 0, 0, 0, 0, 0, 4, 0x65, 0x88, 0x81, 0x80}})
+		case "a":
+			msgs = append(msgs, remuxMsg{8, ts, []byte{first, 0x11, 0x22, 0x33}})
+		case "Mc":
+			msgs = append(msgs, remuxMsg{18, ts, meta(num("width", 1280), num("audiocodecid", codecID))})
+		case "Mr":
+			msgs = append(msgs, remuxMsg{18, ts, meta(num("audiocodecid", codecID), num("audiosamplerate", float64(rate)))})
+		case "M":
+			msgs = append(msgs, remuxMsg{18, ts, meta(num("width", 1280))})
+		}
+		ts += 20
+	}
+	for _, o := range order {
+		add(o)
+	}
+	for i := 0; i < 20; i++ {
+		if i%2 == 0 {
+			add("k")
+		} else {
+			add("a")
+		}
+	}
+	var got []sdp.LogicContext
+	if p := guard(func() {
+		rm := remux.NewRtmp2RtspRemuxer(func(c sdp.LogicContext) { got = append(got, c) }, func(rtprtcp.RtpPacket) {})
+		for _, m := range msgs {
+			pl := append([]byte{}, m.p...)
+			rm.FeedRtmpMsg(base.RtmpMsg{Header: base.RtmpHeader{Csid: 4, MsgLen: uint32(len(pl)), MsgTypeId: m.typ, MsgStreamId: 1, TimestampAbs: m.ts}, Payload: pl})
+		}
+	}); p != nil {
+		r.Violation("remuxsdp/panic", fmt.Sprintf("%s: %v", desc, p), rp)
+		return
+	}
+	if len(got) == 0 {
+		r.Violation("remuxsdp/no-sdp", desc+": no SDP", rp)
+		return
+	}
+	rs, err := ref.ParseSdp(got[0].RawSdp)
+	if err != nil {
+		r.Violation("remuxsdp/rfc-reader", fmt.Sprintf("%s: %v\n%s", desc, err, got[0].RawSdp), rp)
+		return
+	}
+	for _, m := range rs.Media {
+		if m.Media != "audio" {
+			continue
+		}
+		if strings.ToUpper(m.Enc) != enc || m.Clock != rate || got[0].AudioClockRate != rate {
+			r.Violation("remuxsdp/audio-rtpmap", fmt.Sprintf("%s: the SDP announces %s/%d (lal reads clock rate %d); the stream is %s at %d Hz", desc, m.Enc, m.Clock, got[0].AudioClockRate, enc, rate), rp)
+		}
+	}
+}
+
 func remuxSdpCases(r *vk.Run, quick bool) int {
 	n := 0
+	{
+		alpha := []string{"V", "k", "a", "Mc", "Mr", "M"}
+		var gen func(cur []string)
+		gen = func(cur []string) {
+			if contains(cur, "V") {
+				for _, ak := range []string{"g711a", "g711u", "opus"} {
+					checkRemuxSdpNoHeader(r, ak, cur)
+					n++
+				}
+			}
+			if len(cur) == 4 {
+				return
+			}
+			for _, a := range alpha {
+				if a == "k" && !contains(cur, "V") {
+					continue
+				}
+				if a == "V" && contains(cur, "V") {
+					continue
+				}
+				gen(append(append([]string{}, cur...), a))
+			}
+		}
+		gen(nil)
+	}
 	// every arrangement of the sequence headers and up to 3 other messages before the SDP can be known
 	fillers := []string{"a", "k", "p", "M", "Ma"}
 	var orders [][]string
